@@ -125,6 +125,16 @@ Theorem hist_of_any_batching_is_the_one_shot_table :
 Proof. exact hist_feed_concat. Qed.
 Print Assumptions hist_of_any_batching_is_the_one_shot_table.
 
+(* large trace counts are checked on run-length encoded rows (row, repetitions): the weighted table [hist_bsum_w] and the
+   result computed from it are those of the expanded trace list, for every estimator and every phi *)
+Theorem run_length_case_is_the_expanded_case :
+  forall (edges : list Qc) (est : Qc -> nat) (parts : list Z) (phi : Qc -> Qc) (runs : list (row * positive)),
+  (forall b k, get (hist_bsum_w edges est parts runs) b k = get (hist_bsum edges est parts (expand runs)) b k)
+  /\ comp phi (nbins edges) (length parts) (hist_bsum_w edges est parts runs)
+     = comp phi (nbins edges) (length parts) (hist_bsum edges est parts (expand runs)).
+Proof. exact run_length_is_the_expansion. Qed.
+Print Assumptions run_length_case_is_the_expanded_case.
+
 Example hist_nonvacuous :
   let edges := map qi [0; 49; 98]%Z in
   hist_feed edges (est_exact edges) [0; 1; 2]%Z
